@@ -67,6 +67,12 @@ def fault(rng, p0=0.10, p1=0.03):
     return ""
 
 
+def own_strlen(c, off):
+    """strlen through a pointer off bytes into a node holding c (a NUL follows the contents)"""
+    z = c[off:] + b"\0"
+    return z.index(0)
+
+
 def pick_len(rng, cur, l0):
     cands = [0, 0, 1, cur - 1, cur, cur + 1, cur + 1, l0 - 1, l0, l0 + 1, 7, 8, 9, cur // 2, cur * 2 + 1,
              rng.randint(0, 24), rng.randint(0, 24), rng.randint(0, 300)]
@@ -79,6 +85,7 @@ def gen(rng, tier):
     for ci in range(n):
         kind = "mixed"
         ns = 1 if rng.random() < 0.25 else 0
+        shadow = None        # contents while known exactly (no fault since), to aim own-buffer sources
         l0 = rng.choice([0, 0, 1, 2, 6, 7, 8, 9, 10, 15, 16, 17, 31, 32, 33, rng.randint(0, 40), rng.randint(0, 300)])
         r = rng.random()
         if r < 0.04:
@@ -89,26 +96,56 @@ def gen(rng, tier):
             kind = "create-fault"
         elif r < 0.65:
             extra = rng.choice([0, 0, 0, 1, 5])          # source longer than len: only len bytes count
-            create = "L%s,%d" % (hexs(rbytes(rng, l0 + extra)), l0)
+            b = rbytes(rng, l0 + extra)
+            create = "L%s,%d" % (hexs(b), l0)
+            shadow = b[:l0]
         else:
             b = rbytes(rng, l0, nonul=rng.random() < 0.8)
             create = "Z%s" % hexs(b)
             l0 = b.index(0) if 0 in b else len(b)
+            shadow = b[:l0]
         cur = l0
         steps = []
         for _ in range(rng.randint(0, 12 if rng.random() < 0.8 else 24)):
             r = rng.random()
-            if r < 0.08:
+            if r < 0.06:
                 steps.append("g")
-            elif r < 0.62:
+            elif r < 0.22 and shadow is not None:
+                # source = the node's own buffer (+ offset), new length <= what is there:
+                # in-place truncation, suffix/substring extraction without overlap
+                n = len(shadow)
+                if rng.random() < 0.3:                      # strlen-based
+                    offs = [k for k in (0, 0, rng.randint(0, n), n, n // 2 + 1)
+                            if k <= n and (k == 0 or own_strlen(shadow, k) <= k)]
+                    off = rng.choice(offs)
+                    steps.append("s%d" % off)
+                    shadow = shadow[off:off + own_strlen(shadow, off)]
+                else:
+                    if rng.random() < 0.65 or n == 0:
+                        off = 0
+                        ln = rng.choice([0, 1, 2, 5, 7, 8, 9, n - 1, n, n // 2, rng.randint(0, n)])
+                        ln = max(0, min(ln, n))
+                    else:
+                        off = rng.randint(1, n)
+                        room = min(off, n - off)          # inside the contents, disjoint from the destination
+                        ln = min(room, rng.choice([0, 1, room, rng.randint(0, room)]))
+                    steps.append("o%d,%d" % (off, ln))
+                    shadow = shadow[off:off + ln]
+                cur = len(shadow)
+                if kind == "mixed":
+                    kind = "own-source"
+            elif r < 0.66:
                 ln = pick_len(rng, cur, l0)
                 extra = rng.choice([0, 0, 0, 0, 1, 3])
                 f = fault(rng)
-                steps.append("l%s,%d%s" % (hexs(rbytes(rng, ln + extra)), ln, f))
+                b = rbytes(rng, ln + extra)
+                steps.append("l%s,%d%s" % (hexs(b), ln, f))
                 if f:
                     kind = "fault"
+                    shadow = None
                 else:
                     cur = ln
+                    shadow = b[:ln]
             elif r < 0.90:
                 ln = pick_len(rng, cur, l0)
                 b = rbytes(rng, ln, nonul=rng.random() < 0.75)
@@ -116,8 +153,10 @@ def gen(rng, tier):
                 steps.append("z%s%s" % (hexs(b), f))
                 if f:
                     kind = "fault"
+                    shadow = None
                 else:
                     cur = b.index(0) if 0 in b else len(b)
+                    shadow = b[:cur]
             else:
                 steps.append("l%s,%d%s" % (hexs(rbytes(rng, rng.randint(0, 3))), rng.choice(REFUSED), fault(rng, 0.1, 0.0)))
                 if kind == "mixed":
@@ -158,8 +197,23 @@ def parse_arg(a):
     return unhex(a), ln, flt
 
 
-def requested(tok):
-    """(bytes the call asks to store | None when the length must be refused, fault index)"""
+def requested(tok, cur=b""):
+    """(bytes the call asks to store | None when the length must be refused, fault index);
+    cur = the contents at the call (what an own-buffer source points into)"""
+    if tok[0] in "os":
+        body, flt = tok[1:], None
+        if "!" in body:
+            body, k = body.split("!")
+            flt = int(k)
+        if tok[0] == "o":
+            off, ln = [int(x) for x in body.split(",")]
+        else:
+            off = int(body)
+            ln = own_strlen(cur, off)
+        # the generator keeps the source inside the contents and the ranges exact or disjoint
+        if not (0 <= off and off + ln <= len(cur) and (off == 0 or ln <= off)):
+            raise ValueError("own-buffer source outside the generated domain: " + tok)
+        return cur[off:off + ln], flt
     b, ln, flt = parse_arg(tok[1:])
     if tok[0] in "lL":
         if ln < 0 or ln >= INT_MAX - 1 or ln > len(b):
@@ -247,7 +301,10 @@ def oracle(line, meta, impl):
             if st["ret"] != "g" or nsep != sep or st["dlive"] != 0:
                 return ("get-changed", "a read changed the storage (%s)" % where)
         else:
-            req, flt = requested(tok)
+            try:
+                req, flt = requested(tok, want)
+            except ValueError as e:
+                return ("malformed", str(e))
             if st["ret"] not in ("0", "1"):
                 return ("ret", "setter returned %s (%s)" % (st["ret"], where))
             if st["ret"] == "1":
